@@ -145,6 +145,7 @@ type stateAssign struct {
 	sites   []string // how the pre-state was established
 	param   *ssa.Parameter
 	valPar  *ssa.Parameter
+	own     map[int64]bool // prior states admitted by the guards of fn itself (before the callers' guards are added)
 }
 
 // constSet: the set of constants a value can be (const, phi of consts); nil if not resolvable.
@@ -380,6 +381,10 @@ func (l *Loaded) stateAssignments(kinds map[string]*recKind) []*stateAssign {
 			}
 			sa.pre = rk.all()
 			l.applyStateFacts(kinds, rk, sa.pre, factsAt(st.Block()), sa.recExpr)
+			sa.own = map[int64]bool{}
+			for k := range sa.pre {
+				sa.own[k] = true
+			}
 			if a, isA := fa.X.(*ssa.Alloc); isA {
 				sa.param = paramOfAlloc(a)
 			}
@@ -407,7 +412,7 @@ func (l *Loaded) stateAssignments(kinds map[string]*recKind) []*stateAssign {
 				if arg == nil {
 					continue
 				}
-				set, how := l.preStateAtCall(kinds, sa.rk, caller, call, arg)
+				set, how := l.preStateDeep(kinds, sa.rk, caller, call, arg, 0)
 				sa.sites = append(sa.sites, how+":"+sa.rk.setString(set))
 				for k := range set {
 					union[k] = true
@@ -415,7 +420,7 @@ func (l *Loaded) stateAssignments(kinds map[string]*recKind) []*stateAssign {
 			}
 			if sa.valPar != nil {
 				arg := argFor(call, sa.fn, paramIndex(sa.fn, sa.valPar))
-				cs := constSet(arg, map[ssa.Value]bool{})
+				cs := l.constSetThroughCallers(arg, 0)
 				if cs == nil {
 					vals = nil
 				} else if vals != nil {
@@ -517,4 +522,80 @@ func mapSources(fn *ssa.Function, ex *ssa.Extract) (vals []ssa.Value, sites []ss
 		ok = false
 	}
 	return
+}
+
+// paramOfValue: v is a parameter of its function, or a load of the local a parameter was spilled to.
+func paramOfValue(v ssa.Value) *ssa.Parameter {
+	switch x := v.(type) {
+	case *ssa.Parameter:
+		return x
+	case *ssa.UnOp:
+		if a, ok := x.X.(*ssa.Alloc); ok {
+			return paramOfAlloc(a)
+		}
+	}
+	return nil
+}
+
+// constSetThroughCallers: the constants v can take; a value that is just the enclosing function's own parameter is
+// followed to the arguments at that function's call sites (a pass-through wrapper around a shared helper).
+func (l *Loaded) constSetThroughCallers(v ssa.Value, depth int) map[int64]bool {
+	if cs := constSet(v, map[ssa.Value]bool{}); cs != nil {
+		return cs
+	}
+	p := paramOfValue(v)
+	if p == nil || depth > 3 {
+		return nil
+	}
+	g := p.Parent()
+	sites := l.callSitesOf(g)
+	if len(sites) == 0 {
+		return nil
+	}
+	out := map[int64]bool{}
+	for _, s := range sites {
+		a := argFor(s, g, paramIndex(g, p))
+		if a == nil {
+			return nil
+		}
+		cs := l.constSetThroughCallers(a, depth+1)
+		if cs == nil {
+			return nil
+		}
+		for k := range cs {
+			out[k] = true
+		}
+	}
+	return out
+}
+
+// preStateDeep: preStateAtCall, continued through pass-through callers: where the record argument is the caller's own
+// parameter, the states it can have are also limited by the guards at the caller's call sites.
+func (l *Loaded) preStateDeep(kinds map[string]*recKind, rk *recKind, caller *ssa.Function, at ssa.Instruction, arg ssa.Value, depth int) (map[int64]bool, string) {
+	set, how := l.preStateAtCall(kinds, rk, caller, at, arg)
+	p := paramOfValue(arg)
+	if p == nil || p.Parent() != caller || depth > 2 {
+		return set, how
+	}
+	sites := l.callSitesOf(caller)
+	if len(sites) == 0 {
+		return set, how
+	}
+	union := map[int64]bool{}
+	for _, s := range sites {
+		a := argFor(s, caller, paramIndex(caller, p))
+		if a == nil {
+			return set, how
+		}
+		sub, _ := l.preStateDeep(kinds, rk, s.Parent(), s, a, depth+1)
+		for k := range sub {
+			union[k] = true
+		}
+	}
+	for k := range set {
+		if !union[k] {
+			delete(set, k)
+		}
+	}
+	return set, how + " <- callers of " + fnName(caller)
 }
